@@ -393,6 +393,44 @@ class RecCtx(object):
         self.log.append(('exit', next(SEQ)))
 
 
+def _picklable_lock_base():
+    from transitions.extensions.locking import PicklableLock
+    return PicklableLock
+
+
+class RLockCtx(_picklable_lock_base()):
+    """a user context derived from the library's PicklableLock ("reinitialized unlocked when unpickled"): re-entrant,
+    counting — the obvious picklable RLock: only __init__ is overridden"""
+
+    def __init__(self):
+        self.lock = threading.RLock()
+        self.name = 'R'
+        self.entered = 0
+
+    def __enter__(self):
+        self.lock.acquire()
+        self.entered = getattr(self, 'entered', 0) + 1     # (never fail between acquire and release)
+
+    def __exit__(self, *exc):
+        self.lock.release()
+
+
+def reenter(self, *a, **kw):
+    """a callback that takes the machine's first lock context AGAIN while the event holds it (bounded wait instead of a
+    hang: with a re-entrant lock it gets it at once, with a plain lock it cannot)"""
+    mach = machine_of(self)
+    ctx = next((c for c in (mach.__dict__.get('machine_context', []) if mach is not None else []) if hasattr(c, 'lock')), None)
+    if ctx is None:
+        self._note('reenter', a, kw, 'no-lock')
+        return
+    got = ctx.lock.acquire(timeout=0.25)
+    if got:
+        ctx.lock.release()
+    self._note('reenter', a, kw, [type(ctx).__name__, bool(got)])
+
+
+RecMixin.reenter = reenter
+
 _SELF_CLASSES = {}
 
 
@@ -534,6 +572,13 @@ def gen_case(rng, cls_name, tier):
     specs, paths = gen_states(rng, nested)
     events = ['e%d' % i for i in range(rng.randint(1, 3))]
     locs = add_locals(rng, specs, 0.45) if nested else []
+    # NestedState.separator is a class attribute: with another separator the convenience methods of nested states are
+    # FunctionWrapper chains (model.to_S1.x()) instead of partials
+    sep = rng.choice(['_', '_', '_', '.', '/', u'\u21a6']) if nested else '_'
+    if sep != SEP:
+        paths = [q.replace(SEP, sep) for q in paths]
+        for l in locs:
+            l['src'] = l['src'].replace(SEP, sep)
     if any(l['t']['trigger'] == 'l0' for l in locs):
         events.append('l0')
     cbpool = CBS + (ACBS if asy else []) + (MODFNS if rng.random() < 0.3 else [])
@@ -602,10 +647,15 @@ def gen_case(rng, cls_name, tier):
     ctx_mode = 'none'
     model_ctx = [0] * nm
     if locked:
-        ctx_mode = rng.choice(['default', 'rec', 'rec'])
+        ctx_mode = rng.choice(['default', 'rec', 'rec', 'rlock'])
         if ctx_mode == 'rec' and not g:
             # GraphMachine.add_model precedes LockedMachine's in the MRO and takes no `model_context`
             model_ctx = [rng.choice([0, 0, 1, 2]) for _ in range(nm)]
+    if ctx_mode == 'rlock':
+        # histories that rely on re-entrancy: a named callback takes the guard again
+        for _ in range(rng.randint(1, 2)):
+            rng.choice(trans).setdefault(rng.choice(['before', 'after', 'prepare']), []).append('reenter')
+        opts.setdefault('after_state_change', []).append('reenter')
     initial = rng.choice(paths)
     hl = rng.randint(0, 5 if tier == 'quick' else 7)
     hist = [gen_item(rng, nm, events, paths, opts, prefix=True) for _ in range(hl)]
@@ -668,10 +718,10 @@ def gen_case(rng, cls_name, tier):
         fwd_at[str(rng.randrange(hl + 1))] = 'sibling'
         if rng.random() < 0.5:
             fwd_at[str(hl)] = 'original'
-    return {'fwd_at': fwd_at, 'roots': roots, 'gens': gens, 'cls': cls_name, 'via_factory': rng.random() < 0.4, 'states': specs, 'paths': paths, 'initial': initial,
+    return {'sep': sep, 'fwd_at': fwd_at, 'roots': roots, 'gens': gens, 'cls': cls_name, 'via_factory': rng.random() < 0.4, 'states': specs, 'paths': paths, 'initial': initial,
             'events': events, 'transitions': trans, 'opts': opts, 'models': models, 'ctx_mode': ctx_mode,
             'model_ctx': model_ctx, 'history': hist, 'conts': conts, 'protocol': rng.choice([2, 3, 4, 5]),
-            'plain': rng.random() < 0.3, 'lockprobe': locked and ctx_mode == 'default' and rng.random() < (0.5 if tier == 'quick' else 0.7)}
+            'plain': rng.random() < 0.3, 'lockprobe': locked and ctx_mode in ('default', 'rlock') and rng.random() < (0.5 if tier == 'quick' else 0.7)}
 
 
 def gen_item(rng, nm, events, paths, opts, prefix):
@@ -757,6 +807,8 @@ def build(case):
     if locked and case['ctx_mode'] == 'rec':
         mctx = [RecCtx('M0')]
         kw['machine_context'] = list(mctx)
+    if locked and case['ctx_mode'] == 'rlock':
+        kw['machine_context'] = [RLockCtx()]
     objs = []
     for i, m in enumerate(case['models']):
         objs.append(None if m['kind'] == 'self' else RecModel('m%d' % i, m['sched'], attr))
@@ -782,6 +834,17 @@ def build(case):
         m.__dict__['poke_ev'] = spec.get('poke_ev', 'e0')
         m.__dict__['self_ev'] = spec.get('self_ev', 'e0')
     return Rig(machine, models, mctx, mdl_ctx)
+
+
+def resolve_trigger(m, name, sep):
+    """model.<name>; with a custom separator the auto transition to a nested state is a chain: model.to_S1.x.p"""
+    if sep != SEP and name.startswith('to_') and sep in name:
+        segs = name[3:].split(sep)
+        obj = getattr(m, 'to_' + segs[0])
+        for seg in segs[1:]:
+            obj = getattr(obj, seg)
+        return obj
+    return getattr(m, name)
 
 
 def describe_exc(e, rig):
@@ -812,7 +875,7 @@ def apply_item(case, rig, item):
             if item[3]:
                 r = call(m.trigger, item[2], 7, k=1)
             else:
-                r = call(getattr(m, item[2]), 7, k=1)
+                r = call(resolve_trigger(m, item[2], case.get('sep', SEP)), 7, k=1)
             return ['ret', bool(r)]
         if kind == 'may':
             m = model_at(rig, item[1])
@@ -992,7 +1055,11 @@ def fingerprint(rig):
     if 'graph_cls' in m.__dict__:
         o['graph_cls'] = m.__dict__['graph_cls'].__name__
     if 'machine_context' in m.__dict__:
-        o['machine_context'] = [type(c).__name__ + ':' + getattr(c, 'name', '') for c in m.__dict__['machine_context']]
+        def ctx_fp(c):
+            return [type(c).__name__, getattr(c, 'name', ''), type(getattr(c, 'lock', None)).__name__,
+                    sorted(k for k in getattr(c, '__dict__', {}) if k not in ('log',))]
+        o['machine_context'] = [ctx_fp(c) for c in m.__dict__['machine_context']]
+        o['model_contexts'] = [[ctx_fp(c) for c in l] for l in m.__dict__.get('model_context_map', {}).values()]
     fp['opts'] = o
     # the copy owns the same instance attributes as the original (an attribute missing from the copy's __dict__ silently
     # falls back to a class attribute shared by every instance)
@@ -1013,7 +1080,8 @@ def fingerprint(rig):
         mods.append(d)
     fp['models'] = mods
     if hasattr(m, 'get_markup_config'):
-        mk = copy.deepcopy(m.get_markup_config())
+        # (called on the class: introspection must not take the machine's locks)
+        mk = copy.deepcopy(type(m).get_markup_config(m))
         mk.pop('models', None)
         fp['markup'] = json.loads(json.dumps(mk, default=str))
     return json.loads(json.dumps(fp, default=str))
@@ -1426,6 +1494,8 @@ def judge_midevent(case, p, sn, fail, stats, reqs=None):
     if fpC != sn['fp'] or recs(C) != sn['recs']:
         fail('monitor', 'structure-mid-event', '%s: copy differs from the original at that instant: %s'
              % (tag, diff_paths(sn['fp'], fpC)), midevent_signature(case, scope_left, ident_left, 'structure'))
+        if any(fpC['opts'].get(k) != sn['fp']['opts'].get(k) for k in ('machine_context', 'model_contexts')):
+            return      # other kinds of locks than the original's: driving this copy may deadlock
     # a control at rest in the same model states
     try:
         K = build(case)
@@ -1500,6 +1570,17 @@ def midevent_signature(case, scope_left, ident_left, clause):
 
 
 def run_case(case, want_requests=True):
+    """sets the state-name separator of the case on the state class for the duration of the case"""
+    from transitions.extensions.nesting import NestedState
+    old = NestedState.separator
+    NestedState.separator = case.get('sep', SEP)
+    try:
+        return run_case_inner(case, want_requests)
+    finally:
+        NestedState.separator = old
+
+
+def run_case_inner(case, want_requests=True):
     """returns dict(failures=[(kind, clause, what, signature)], requests=[(key, nats, expect)], stats)"""
     fails = []
     reqs = []
@@ -1606,6 +1687,10 @@ def run_case(case, want_requests=True):
         fpC = fingerprint(C)
         if fpC != fpA:
             fail('monitor', 'structure', 'prefix %d: copy differs structurally: %s' % (p, diff_paths(fpA, fpC)))
+            if any(fpC['opts'].get(k) != fpA['opts'].get(k) for k in ('machine_context', 'model_contexts')):
+                # the copy's contexts are not the original's kind of lock: driving it may deadlock (a plain lock
+                # where a re-entrant one was) — the structural verdict stands, no behavioural phases on this copy
+                continue
         if recs(C) != recA:
             fail('monitor', 'recordings', 'prefix %d: recorded callback history not carried over' % p)
         # control in the same state, never pickled
@@ -2244,6 +2329,10 @@ class C15(runner.Check):
                 'against a control AT REST with the same configuration and the same model states: the unfinished part of '
                 'the event lives on the call stack of the original, not in the machine (reading of "reacts like the '
                 'original" for a snapshot that has no call stack)',
+                'user context managers given as machine_context / model_context are part of the configuration, including a '
+                'subclass of the library\'s PicklableLock that overrides only __init__ (its documented contract is '
+                '"reinitialized unlocked when unpickled"); a copy whose contexts are another kind of lock than the '
+                'original\'s is reported structurally and not driven any further (it may deadlock)',
                 'a copy is itself a machine in a reachable state: copy-of-copy(-of-copy) chains are judged like first '
                 'copies; pickling THROUGH a model (pickle.dumps(model), [models], (model, machine)) is pickling the '
                 'machine and is judged the same way, except that the graph of the root model may lack the active mark '
